@@ -322,7 +322,7 @@ class P_pdb(StructureParser):
             "charge": "",
         }
         lines.append(atomline)
-        isotropic = numpy.all(a.U == a.U[0, 0] * numpy.identity(3))
+        isotropic = not stru.lattice.isanisotropic(a.U)
         if not isotropic:
             mid = " %7i%7i%7i%7i%7i%7i  " % tuple(
                 numpy.around(1e4 * numpy.array([a.U[0, 0], a.U[1, 1], a.U[2, 2], a.U[0, 1], a.U[0, 2], a.U[1, 2]]))
